@@ -574,7 +574,17 @@ func (s *Store[H]) flush(ctx context.Context, headers ...H) error {
 	}
 
 	// finally, commit the batch on disk
-	return batch.Commit(ctx)
+	if err := batch.Commit(ctx); err != nil {
+		return err
+	}
+
+	// the index entries just written supersede whatever is cached for these heights, e.g. the entry of
+	// a header left behind by an interrupted head-side deletion that was looked up before another
+	// header arrived at its height
+	for _, h := range headers {
+		s.heightIndex.cache.Remove(h.Height())
+	}
+	return nil
 }
 
 // readByKey the hash under the given key from datastore and fetch the header by hash.
